@@ -160,6 +160,39 @@ def sweep(names):
     return 0
 
 
+def table():
+    """Rewrites the table between the sweep markers of DESIGN.md from seeded/RESULTS.json."""
+    res = json.load(open(os.path.join(VERIF, "seeded", "RESULTS.json")))
+    rows = ["| change | property | result of the property's quick check | first failure reported / note |", "|---|---|---|---|"]
+    for name in sorted(res):
+        r = res[name]
+        note = r.get("first_failure") or r.get("detail") or ""
+        try:
+            meta = json.load(open(os.path.join(VERIF, "seeded", name, "meta.json")))
+            extra = (meta.get("verif") or {}).get("note") or ""
+            if r["result"] != "caught" and extra:
+                note = extra
+            elif r["result"] == "MISSED" and (meta.get("verif") or {}).get("result"):
+                note = meta["verif"]["result"]
+        except Exception:
+            pass
+        note = note.replace("|", "/")[:260]
+        rows.append("| %s | %s | %s | %s |" % (name, r["property"], r["result"], note))
+    n = {k: sum(1 for r in res.values() if r["result"] == k) for k in ("caught", "MISSED", "does-not-apply", "inconclusive")}
+    head = "Last sweep at /repo %s: %d caught, %d missed, %d no longer applicable, %d inconclusive (build failure of the reverse patch).\n\n" % (
+        next(iter(res.values()))["repo_head"], n["caught"], n["MISSED"], n["does-not-apply"], n["inconclusive"])
+    p = os.path.join(VERIF, "DESIGN.md")
+    s = open(p).read()
+    a, b = "<!-- sweep:begin -->", "<!-- sweep:end -->"
+    if a not in s:
+        s = s.replace("@@SWEEP_TABLE@@", a + "\n" + b)
+    i, j = s.index(a) + len(a), s.index(b)
+    s = s[:i] + "\n" + head + "\n".join(rows) + "\n" + s[j:]
+    open(p, "w").write(s)
+    print(head.strip())
+    return 0
+
+
 def keep(d, name):
     out = os.path.join(d, "out")
     dst = os.path.join(VERIF, "seeded", name)
@@ -176,6 +209,8 @@ if __name__ == "__main__":
         sys.exit(validate(a[2]))
     if len(a) >= 4 and a[1] == "run":
         sys.exit(run(a[2], a[3], a[4] if len(a) > 4 else "quick"))
+    if len(a) >= 2 and a[1] == "table":
+        sys.exit(table())
     if len(a) >= 2 and a[1] == "sweep":
         sys.exit(sweep(a[2:]))
     if len(a) >= 4 and a[1] == "keep":
